@@ -16,6 +16,8 @@
 (***************************************************************************)
 EXTENDS Naturals, Sequences, FiniteSets, TLC
 
+CONSTANT EscapeFinalTwice     \* design as coded before fix F28 (TRUE): RoundTrip fails for strings with both triple quotes
+
 \* character classes of the VALUE
 \*  sp space, tab, nl \n, cr \r, sq ', dq ", bs backslash, a printable ASCII, u printable non-ASCII,
 \*  np non-printable (control characters, form feed, NEL, LS/PS, lone surrogates, unassigned), x astral printable
@@ -61,7 +63,10 @@ TripleQuote(s) ==
       last == esc[Len(esc)]
       sorted == SelectSeq(poss, LAMBDA q : q # last) \o SelectSeq(poss, LAMBDA q : q = last)
       q == sorted[1]
-      esc2 == IF q = last THEN SubSeq(esc, 1, Len(esc) - 1) \o <<"bs", last>> ELSE esc
+      \* a final quote of the chosen kind is escaped - unless it already is, as the extra quote (since fix F28; as
+      \* coded before, it was escaped twice: a backslash followed by the closing quotes)
+      esc2 == IF q = last /\ (EscapeFinalTwice \/ last # extra)
+              THEN SubSeq(esc, 1, Len(esc) - 1) \o <<"bs", last>> ELSE esc
       b1 == ReplaceSpNl(esc2)
       b2 == <<"bs", "NL">> \o b1
       b3 == IF b2[Len(b2)] = "NL" THEN b2 ELSE b2 \o <<"bs", "NL">>
